@@ -78,6 +78,8 @@ where
     T: FloatT,
 {
     fn update_values(&mut self, index: &[usize], values: &[T]) {
+        #[cfg(clarabel_verif)]
+        crate::verif::emit(crate::verif::Event::Yield);
         //Update values that are stored within
         //the reordered copy held internally by QDLDL.
         self.factors.update_values(index, values);
@@ -92,12 +94,16 @@ where
     }
 
     fn solve(&mut self, _kkt: &CscMatrix<T>, x: &mut [T], b: &[T]) {
+        #[cfg(clarabel_verif)]
+        crate::verif::emit(crate::verif::Event::Yield);
         // NB: QDLDL solves in place
         x.copy_from(b);
         self.factors.solve(x);
     }
 
     fn refactor(&mut self, _kkt: &CscMatrix<T>) -> bool {
+        #[cfg(clarabel_verif)]
+        crate::verif::emit(crate::verif::Event::Yield);
         //QDLDL has maintained its own version of the permuted
         //KKT matrix through custom update/scale/offset methods,
         //so we ignore the KKT matrix provided by the caller
